@@ -423,6 +423,7 @@ def enumerate_cases(tier):
     # the ignore file sits in an ancestor of the root - and that ancestor is the root directory of the file system
     cases = [{"kind": "fs-root-context", "tool": t, "root": r, "mode": m}
              for t in ("hg", "docker") for r in ("/proj", "/proj/sub", "/") for m in ("", "dfs")]
+    cases += [{"kind": "context-chain", "tool": t, "root": r, "mode": m} for t in ("docker", "hg") for r in ("dot", "rel", "abs") for m in ("", "dfs")]
     # a symbolic link that leads to a directory and carries a name a directory-only pattern ignores (git: a link is no
     # directory); a negation with a directory part after a wildcard basename pattern
     ltree = {"real": {"t": "d", "ch": {"f.txt": {"t": "f", "c": ""}}}, "build": {"t": "l", "to": "real"}, "lnk": {"t": "l", "to": "real"},
@@ -480,7 +481,52 @@ def check_fs_root(case):
     return out
 
 
+def check_chain(case):
+    """Two ignore files on the way from the search root up: the nearest context decides (docker: the build context's
+    own .dockerignore; hg: the repository the root lies in - the nearest `.hg`), the outer one is not consulted."""
+    out = Outcome()
+    cdir = runner.new_case_dir()
+    top = os.path.join(cdir, "outer")
+    try:
+        os.makedirs(top + "/ctx/sub")
+        for f in ("ctx/a.log", "ctx/b.tmp", "ctx/keep.txt", "ctx/sub/c.log", "ctx/sub/d.tmp", "o.log", "o.tmp"):
+            open(os.path.join(top, f), "w").close()
+        tool = case["tool"]
+        fname, opt, alias, noopt = TOOLS[tool]
+        if tool == "hg":
+            os.mkdir(top + "/.hg")
+            os.mkdir(top + "/ctx/.hg")
+            outer, inner = "syntax: glob\n*.tmp\n", "syntax: glob\n*.log\n"
+        else:
+            outer, inner = "**/*.tmp\n!**/a.log\n", "**/*.log\n"
+        with open(os.path.join(top, fname), "w") as f:
+            f.write(outer)
+        with open(os.path.join(top, "ctx", fname), "w") as f:
+            f.write(inner)
+        mode = (" " + case["mode"]) if case["mode"] else ""
+        root_text, cwd = {"dot": (".", top + "/ctx"), "rel": ("ctx", top), "abs": (top + "/ctx", cdir)}[case["root"]]
+        got, q = listing(out, cwd, root_text, " " + opt + mode, None, "C20/%s/context-chain" % tool)
+        plain, q0 = listing(out, cwd, root_text, mode, None, "C20/%s/context-chain" % tool)
+        if got is None or plain is None:
+            return out
+        hidden = lambda p: os.path.basename(p) in (fname, ".hg")
+        want = sorted(p for p in plain if not p.endswith(".log") and not hidden(p))
+        got = sorted(p for p in got if not hidden(p))
+        if got != want:
+            out.add("C20/%s/context-chain/%s" % (tool, "under-ignore" if set(got) - set(want) else "over-ignore"), query=q,
+                    wrongly_listed=sorted(set(got) - set(want))[:6], wrongly_ignored=sorted(set(want) - set(got))[:6])
+        out.nontrivial = True
+        out.nt_keys = ["chain|%s|%s|%s" % (tool, case["root"], case["mode"])]
+        out.classes = ["context-chain", "tool=" + tool]
+        out.sample = {"query": q, "listed": len(got)}
+    finally:
+        runner.rmtree(cdir)
+    return out
+
+
 def check(case):
+    if case.get("kind") == "context-chain":
+        return check_chain(case)
     if case.get("kind") == "fs-root-context":
         return check_fs_root(case)
     if case.get("kind") == "several-roots":
